@@ -46,7 +46,7 @@ def hcfg(phi, window, maxi, prior):
 
 GRID_Q = [((1, 1), 2, 2, 1), ((1, 2), 1, 4, 2), ((2, 1), 3, 1, 4)]
 GRID_T = [((pn, pd), w, mi, pr) for (pn, pd) in ((1, 2), (1, 1), (2, 1), (8, 1))
-          for w in (1, 2, 3) for mi in (1, 2, 4) for pr in (1, 2, 4)]
+          for (w, mi, pr) in ((1, 1, 1), (1, 4, 2), (2, 2, 1), (2, 1, 4), (3, 2, 2), (3, 4, 1), (2, 4, 4), (3, 1, 2), (1, 2, 4))]
 
 
 def tmp(n):
@@ -79,7 +79,7 @@ def run(prop, tier, seed, replay=None):
     for (phi, w, mi, pr) in grid:
         name = f"det_{phi[0]}_{phi[1]}_{w}_{mi}_{pr}"
         c = consts(phi, w, mi, pr, True)
-        if tier == "thorough":
+        if tier == "thorough" and w == 1:
             c["MaxArrivals"] = 6
         cfgp = vlib.write_cfg(tmp(f"{name}.cfg"), "DSpec", c, invariants=TRACE_INV,
                               properties=[f for f in TRACE_PROPS if f != "C11_SteadyObs"], view="DView", constraint="DBounded",
